@@ -109,3 +109,57 @@ Proof.
     apply (getstate_of _ s Hs).
     intros n Hn. rewrite tb_wrapU, Z.lor_spec, tb_wrapU, (aligned_bits ptr n Ha) by lia. fin.
 Qed.
+
+(* ---- the abstraction step, formally: Gen_P4A models the member object mPtrState by the two scalars (pointer, state).  The ONLY
+   writer of the object in BucketLimP4 is pvSetPtrState (mPtrState.Set(items, memPoolIndex1)), the only readers are
+   GetPointer() (AddCrt, Remove, Clear, Find, GetBounds) and GetState() (pvGetMemPoolIndex).  For each of the three real packings:
+   performing the generated Set with the argument expressions pvSetPtrState passes succeeds (both assertions hold) and the
+   generated getters then return exactly the scalars the model's pvSetPtrState produces.  Hence the relation
+   "GetPointer m = ptr /\ GetState m = state" is established by every write and is all the readers depend on. ---- *)
+From C12 Require Gen_P4A.
+
+Definition R32 (m : Z) (ptr stt : Z) : Prop := Gen_Ptr32.GetPointer m = ptr /\ Gen_Ptr32.GetState m = stt.
+Definition R48 (m : Z -> Z) (ptr stt : Z) : Prop := Gen_Ptr48.GetPointer m = ptr /\ Gen_Ptr48.GetState m = stt.
+Definition R64 (m : Z -> Z) (ptr stt : Z) : Prop := Gen_Ptr64.GetPointer m = ptr /\ Gen_Ptr64.GetState m = stt.
+
+Lemma setptr_args mpi : 1 <= mpi <= 4 -> wrapU 8 (wrapU 8 (wrapU 8 mpi - 1)) = mpi - 1.
+Proof.
+  intros. rewrite (wrapU_small 8 mpi) by (change (2 ^ 8) with 256; lia).
+  rewrite !(wrapU_small 8 (mpi - 1)) by (change (2 ^ 8) with 256; lia). reflexivity.
+Qed.
+
+Theorem ptrstate_abstraction32 s ptr stt items mpi m : 1 <= mpi <= 4 -> 0 <= items < 2 ^ 32 -> Z.land items 3 = 0 ->
+  let '(s', ptr', stt') := Gen_P4A.pvSetPtrState s ptr stt items mpi in
+  s' = s /\ exists m', Gen_Ptr32.SetPtr m items (wrapU 8 (wrapU 8 (wrapU 8 mpi - 1))) = Ok (tt, m') /\ R32 m' ptr' stt' /\
+    Gen_P4A.pvGetMemPoolIndex s' ptr' stt' = mpi.
+Proof.
+  intros Hm Hi Ha. unfold Gen_P4A.pvSetPtrState, Gen_P4A.useHashCodePartGetter. cbn [negb andb]. split; [reflexivity|].
+  rewrite setptr_args by assumption.
+  destruct (ptr32_roundtrip m items (mpi - 1) Hi Ha ltac:(lia)) as (m' & H1 & H2 & H3).
+  exists m'. split; [exact H1|]. split; [split; assumption|].
+  unfold Gen_P4A.pvGetMemPoolIndex, Gen_P4A.useHashCodePartGetter. rewrite wrapU_small by (change (2 ^ 64) with 18446744073709551616; lia). lia.
+Qed.
+
+Theorem ptrstate_abstraction48 s ptr stt items mpi m : 1 <= mpi <= 4 -> 0 <= items < 2 ^ 48 -> Z.land items 3 = 0 ->
+  let '(s', ptr', stt') := Gen_P4A.pvSetPtrState s ptr stt items mpi in
+  s' = s /\ exists m', Gen_Ptr48.SetPtr m items (wrapU 8 (wrapU 8 (wrapU 8 mpi - 1))) = Ok (tt, m') /\ R48 m' ptr' stt' /\
+    Gen_P4A.pvGetMemPoolIndex s' ptr' stt' = mpi.
+Proof.
+  intros Hm Hi Ha. unfold Gen_P4A.pvSetPtrState, Gen_P4A.useHashCodePartGetter. cbn [negb andb]. split; [reflexivity|].
+  rewrite setptr_args by assumption.
+  destruct (ptr48_roundtrip m items (mpi - 1) Hi Ha ltac:(lia)) as (m' & H1 & H2 & H3).
+  exists m'. split; [exact H1|]. split; [split; assumption|].
+  unfold Gen_P4A.pvGetMemPoolIndex, Gen_P4A.useHashCodePartGetter. rewrite wrapU_small by (change (2 ^ 64) with 18446744073709551616; lia). lia.
+Qed.
+
+Theorem ptrstate_abstraction64 s ptr stt items mpi m : 1 <= mpi <= 4 -> 0 <= items < 2 ^ 64 -> Z.land items 3 = 0 ->
+  let '(s', ptr', stt') := Gen_P4A.pvSetPtrState s ptr stt items mpi in
+  s' = s /\ exists m', Gen_Ptr64.SetPtr m items (wrapU 8 (wrapU 8 (wrapU 8 mpi - 1))) = Ok (tt, m') /\ R64 m' ptr' stt' /\
+    Gen_P4A.pvGetMemPoolIndex s' ptr' stt' = mpi.
+Proof.
+  intros Hm Hi Ha. unfold Gen_P4A.pvSetPtrState, Gen_P4A.useHashCodePartGetter. cbn [negb andb]. split; [reflexivity|].
+  rewrite setptr_args by assumption.
+  destruct (ptr64_roundtrip m items (mpi - 1) Hi Ha ltac:(lia)) as (m' & H1 & H2 & H3).
+  exists m'. split; [exact H1|]. split; [split; assumption|].
+  unfold Gen_P4A.pvGetMemPoolIndex, Gen_P4A.useHashCodePartGetter. rewrite wrapU_small by (change (2 ^ 64) with 18446744073709551616; lia). lia.
+Qed.
